@@ -66,6 +66,20 @@ def scenario(name):
             w("v.lua", UNFORMATTED)
             rc, out, err = run(["--verify", "v.lua"], d)
             if rc != 0 or r("v.lua") != ref: return False, "--verify run did not write the formatted text"
+            # a file that is not valid UTF-8 cannot be read: untouched, exit 2, the other file still formatted
+            latin1 = b"local   s = 'caf\xe9'\n"
+            w("l.lua", latin1); w("m.lua", UNFORMATTED)
+            rc, out, err = run(["l.lua", "m.lua"], d)
+            if r("l.lua") != latin1: return False, "a file that is not valid UTF-8 was rewritten"
+            if rc != 2: return False, f"exit {rc} with an undecodable file, expected 2"
+            if r("m.lua") != ref: return False, "the other file was not formatted"
+            # a file that fails --verify keeps its bytes and the run exits 2 (here: require order changes under --sort-requires)
+            req = b'local b = require("b")\nlocal a = require("a")\n'
+            w("q.lua", req); w("m.lua", UNFORMATTED)
+            rc, out, err = run(["--verify", "--sort-requires", "q.lua", "m.lua"], d)
+            if r("q.lua") != req: return False, "a file that failed --verify was modified"
+            if rc != 2: return False, f"exit {rc} although a file failed --verify, expected 2"
+            if r("m.lua") != ref: return False, "the other file was not formatted when one failed --verify"
             return True, ""
         if name == "stdin_stdout_only":
             before = sorted(os.listdir(d))
